@@ -324,6 +324,20 @@ def run_alias(spec, acc, api):
                 if real_dbg[0] != real[0] or not (same_value(real_dbg[1], real[1]) if real[0] == 'ok' else real_dbg[1] == real[1]):
                     acc.violation('value-depends-on-debug-mode', f'{alias}({args!r}) = {real!r:.200} without logging, {real_dbg!r:.200} with logFn and debug',
                                   {'alias': alias, 'args': refval.enc(args)})
+            # ... nor on whether an options object exists at all (operands as locals, no options / empty options)
+            if alias not in NONDET:
+                for opts in (None, {}):
+                    try:
+                        real_no = ('ok', evaluate_expression(expr, opts, dict(g), True))
+                    except rt_err as exc:
+                        real_no = ('rterr', str(exc))
+                    except Exception as exc:  # pylint: disable=broad-except
+                        real_no = ('host-exception', f'{type(exc).__name__}: {exc}')
+                    acc.count('no_options_comparisons')
+                    if real_no[0] != real[0] or not (same_value(real_no[1], real[1]) if real[0] == 'ok' else real_no[0] == 'rterr'):
+                        acc.violation('value-depends-on-options-object', f'{alias}({args!r}) = {real!r:.200} with options, {real_no!r:.200} with options={opts!r}',
+                                      {'alias': alias, 'args': refval.enc(args)})
+                        break
             # script mode: the alias name is not defined
             try:
                 evaluate_expression(expr, {'globals': dict(g)}, None, False)
